@@ -72,7 +72,10 @@ for f in kf['fixed']:
 def keyf(e):
     m = re.match(r'([CD])(\d+)(?:-(\w+))?', e['id'])
     return (m.group(1), int(m.group(2)), m.group(3) or '')
-fp = json.load(open(V + '/seeded/round2_first_pass.json'))['breaking_first_pass']
+fp = dict(json.load(open(V + '/records/round2_first_pass.json'))['breaking_first_pass'])
+r3rec = json.load(open(V + '/records/round3_first_pass.json'))
+for k3, v3 in r3rec['first_pass'].items():
+    fp[k3] = v3
 mrows = ['| change | what it does | first pass | reported by (after tuning) |', '|--------|--------------|------------|---------------------------|']
 own = other = missed = 0
 for e in sorted(exps, key=keyf):
@@ -93,6 +96,11 @@ for e in sorted(exps, key=keyf):
     if id in fp:
         f1 = fp[id]
         first = ' '.join(f1['reported_by']) if f1['reported_by'] else ('undecided' if f1['undecided'] else '**missed**')
+        if 'wrong reason' in f1.get('note', ''):
+            first = '(' + first + ': wrong reason, counts as missed)'
+        rel = f1.get('relation_to_earlier_samples', '')
+        if rel and rel != 'novel':
+            what = what[:110] + ' [' + rel.split(' (')[0] + ']'
     else:
         first = '–'
     mrows.append(f"| {id} | {what[:150]} | {first} | {' '.join(cb) if cb else '**none**'} |")
